@@ -24,7 +24,7 @@ int LLVMFuzzerTestOneInput(const uint8_t *data, size_t size)
         CUR_CASE = (long)(hash_bytes(data, size, 1) & 0x7fffffff);   /* handler decisions are a function of the input: artifacts replay */
         FUZZ_DATA = data; FUZZ_LEN = size; FUZZ_POS = 0;
         eng_default_profile();
-        EP.unspecified_cells = c03; EP.p_weird = 25; EP.p_long_line = 20; EP.p_event_step = 60; EP.p_cut = 20; EP.max_cmds = 24;
+        EP.unspecified_cells = c03; EP.p_weird = 25; EP.p_long_line = 20; EP.p_event_step = 60; EP.p_cut = 20; EP.max_cmds = 24; EP.p_lookup = 30;
         eng_gen_table();
         eng_gen_input(1 + rn(5));
         eng_random_schedules();
